@@ -95,6 +95,9 @@ structure QMsg where
 def QMsg.view (m : QMsg) (ack : Bool := false) : View :=
   ⟨if ack then 2 else if m.con then 0 else 1, m.code, m.mid, m.tok, ""⟩
 
+/-- the ghost serial a written PDU is tagged with: none for an acknowledgement / piggy-backed response -/
+def QMsg.snOf (m : QMsg) (ack : Bool) : Option Nat := if ack then none else some m.sn
+
 inductive Out where
   | tx (tls : Bool) (v : View) (sn : Option Nat)     -- a PDU written; tls = through coap_dtls_send (else plain netif write)
   | req (tok payload : String)                       -- request handler called
@@ -139,6 +142,12 @@ structure Ctx where
   orc : List Orc := []
   out : List Out := []
   ret : Int := 0
+  -- the last answer popped from the oracle / the node found by removeInflight
+  hsR : HsRes := .other
+  recR : RecRes := .err
+  sndR : SndRes := .err
+  flag : Bool := false
+  found : Option QMsg := none
   deriving Repr
 
 def NSTART : Nat := 1
@@ -153,34 +162,34 @@ def upd (f : Sess → Sess) (c : Ctx) : Ctx := { c with s := f c.s }
 
 /-! ## the oracle -/
 
-def popHs (c : Ctx) : HsRes × Ctx :=
+def popHs (c : Ctx) : Ctx :=
   match c.orc with
-  | .hs r :: t => (r, { c with orc := t })
-  | _ => (.other, c.emit .orcMissing)
-def popRec (c : Ctx) : RecRes × Ctx :=
+  | .hs r :: t => { c with orc := t, hsR := r }
+  | _ => { c.emit .orcMissing with hsR := .other }
+def popRec (c : Ctx) : Ctx :=
   match c.orc with
-  | .recv r :: t => (r, { c with orc := t })
-  | _ => (.err, c.emit .orcMissing)
-def popSnd (c : Ctx) : SndRes × Ctx :=
+  | .recv r :: t => { c with orc := t, recR := r }
+  | _ => { c.emit .orcMissing with recR := .err }
+def popSnd (c : Ctx) : Ctx :=
   match c.orc with
-  | .snd r :: t => (r, { c with orc := t })
-  | _ => (.err, c.emit .orcMissing)
-def popEnv (c : Ctx) : Bool × Ctx :=
+  | .snd r :: t => { c with orc := t, sndR := r }
+  | _ => { c.emit .orcMissing with sndR := .err }
+def popEnv (c : Ctx) : Ctx :=
   match c.orc with
-  | .env b :: t => (b, { c with orc := t })
-  | _ => (false, c.emit .orcMissing)
-def popCk (c : Ctx) : Bool × Ctx :=
+  | .env b :: t => { c with orc := t, flag := b }
+  | _ => { c.emit .orcMissing with flag := false }
+def popCk (c : Ctx) : Ctx :=
   match c.orc with
-  | .ck b :: t => (b, { c with orc := t })
-  | _ => (false, c.emit .orcMissing)
+  | .ck b :: t => { c with orc := t, flag := b }
+  | _ => { c.emit .orcMissing with flag := false }
 
 /-! ## coap_gnutls.c -/
 
 /-- do_gnutls_handshake: ret 1 established / 0 not completed / -1 failure -/
 def doHandshake (c : Ctx) : Ctx :=
-  let (r, c) := c.popHs
+  let c := c.popHs
   let closed (c : Ctx) : Ctx := (c.upd fun s => { s with dtlsEvent := some .closed }).setRet (-1)
-  match r with
+  match c.hsR with
   | .ok => ((c.upd fun s => { s with est := true }).emit .hsOkMark).setRet 1
   | .again => c.setRet 0
   | .insuff => c.setRet (-1)
@@ -217,15 +226,19 @@ def sessionClose (c : Ctx) : Ctx :=
 
 def nackOf (r : Nack) (m : QMsg) : Out := .nack r (some m.tok) (some m.sn)
 
-/-- coap_session_disconnected_lkd -/
-def disconnected (reason : Nack) (c : Ctx) : Ctx :=
+/-- the NACKs coap_session_disconnected_lkd raises before it touches the session: the first node of the send queue,
+every Confirmable in the delay queue (not for an ICMP error), or one NACK without a PDU if there was nothing -/
+def discOuts (reason : Nack) (c : Ctx) : List Out :=
   let first : List Out := match c.s.inflight with | q :: _ => [nackOf reason q] | [] => []
   let dq : List Out := if reason = .icmp then [] else (c.s.delayq.filter fun q : QMsg => q.con).map (nackOf reason)
   let nothing : List Out := if first.isEmpty && dq.isEmpty then [.nack reason none none] else []
-  let c := { c with out := c.out ++ first ++ dq ++ nothing }
-  let c := if reason = .icmp then c else c.upd fun s => { s with delayq := [] }
+  first ++ dq ++ nothing
+
+/-- coap_session_disconnected_lkd -/
+def disconnected (reason : Nack) (c : Ctx) : Ctx :=
+  let c := { c with out := c.out ++ c.discOuts reason }
   if reason = .icmp then c else
-  let c := c.upd fun s => { s with state := if s.proto = .udp then .established else .none, conActive := 0 }
+  let c := c.upd fun s => { s with delayq := [], state := if s.proto = .udp then .established else .none, conActive := 0 }
   -- coap_cancel_session_messages
   let c := { c with out := c.out ++ (c.s.inflight.filter fun q : QMsg => q.con).map (nackOf reason) }
   let c := c.upd fun s => { s with inflight := [] }
@@ -240,41 +253,41 @@ def delayPdu (m : QMsg) (fromNode : Bool) (c : Ctx) : Ctx :=
   else if c.s.proto ≠ .tls && c.s.delayq.any (·.mid = m.mid) then c.setRet (-1)
   else (c.upd fun s => { s with delayq := s.delayq ++ [m] }).setRet DELAYED
 
-/-- coap_dtls_send (the harness logs the PDU at entry) -/
-def dtlsSend (m : QMsg) (ack : Bool) (c : Ctx) : Ctx :=
-  let c := c.emit (.tx true (m.view ack) (if ack then none else some m.sn))
+/-- gnutls_record_send and the switch over its result in coap_dtls_send -/
+def sndResult (c : Ctx) : Ctx :=
+  let c := c.popSnd
+  match c.sndR with
+  | .ok => c.setRet 1
+  | .again => c.setRet 0
+  | .fatalrx => (c.upd fun s => { s with sentAlert := true, dtlsEvent := some .closed }).setRet (-1)
+  | .err => c.setRet (-1)
+
+/-- coap_dtls_send up to the event handling (the harness logs the PDU at entry) -/
+def dtlsSendCore (m : QMsg) (ack : Bool) (c : Ctx) : Ctx :=
+  let c := c.emit (.tx true (m.view ack) (m.snOf ack))
   let c := c.upd fun s => { s with dtlsEvent := none }
-  let c :=
-    if c.s.est then
-      let (r, c) := c.popSnd
-      match r with
-      | .ok => c.setRet 1
-      | .again => c.setRet 0
-      | .fatalrx => (c.upd fun s => { s with sentAlert := true, dtlsEvent := some .closed }).setRet (-1)
-      | .err => c.setRet (-1)
-    else
-      let c := c.doHandshake
-      if c.ret = 1 then
-        -- "just connected, so send the data": the recursive call
-        let c := c.upd fun s => { s with dtlsEvent := none }
-        let (r, c) := c.popSnd
-        match r with
-        | .ok => c.setRet 1
-        | .again => c.setRet 0
-        | .fatalrx => (c.upd fun s => { s with sentAlert := true, dtlsEvent := some .closed }).setRet (-1)
-        | .err => c.setRet (-1)
-      else c.setRet (-1)
+  if c.s.est then c.sndResult
+  else
+    let c := c.doHandshake
+    -- "just connected, so send the data": the recursive call
+    if c.ret = 1 then (c.upd fun s => { s with dtlsEvent := none }).sndResult else c.setRet (-1)
+
+/-- tail of coap_dtls_send: act on session->dtls_event -/
+def sendTail (c : Ctx) : Ctx :=
   match c.s.dtlsEvent with
   | some e =>
     let c := c.emit (.ev e)
     if e = .error || e = .closed then (c.disconnected .tls).setRet (-1) else c
   | none => c
 
+/-- coap_dtls_send -/
+def dtlsSend (m : QMsg) (ack : Bool) (c : Ctx) : Ctx := (c.dtlsSendCore m ack).sendTail
+
 /-- coap_session_send_pdu: `lfunc[COAP_LAYER_SESSION].l_write` = coap_netif_dgrm_write (UDP) / coap_dtls_send (DTLS) /
 coap_tls_write (TLS) — coap_layers.c -/
 def sessionSendPdu (m : QMsg) (ack : Bool) (c : Ctx) : Ctx :=
   match c.s.proto with
-  | .udp => (c.emit (.tx false (m.view ack) (if ack then none else some m.sn))).setRet 1
+  | .udp => (c.emit (.tx false (m.view ack) (m.snOf ack))).setRet 1
   | _ => dtlsSend m ack c
 
 /-- coap_send_pdu -/
@@ -285,7 +298,15 @@ def sendPdu (m : QMsg) (ack fromNode : Bool) (c : Ctx) : Ctx :=
     let c := c.sessionSendPdu m ack
     if c.ret ≥ 0 && m.con && !ack && c.s.proto ≠ .tls then c.upd fun s => { s with conActive := s.conActive + 1 } else c
 
-/-- coap_session_connected: the state change and the flush of the delay queue, in order -/
+/-- one round of the loop in coap_session_connected: the head `q` of the delay queue is taken off and written;
+a Confirmable counts as active and goes to the send queue (coap_wait_ack always succeeds), anything else is deleted -/
+def flushOne (q : QMsg) (rest : List QMsg) (c : Ctx) : Ctx :=
+  let c := c.upd fun s => { s with conActive := if q.con && s.proto ≠ .tls then s.conActive + 1 else s.conActive,
+                                   delayq := rest }
+  let c := c.sessionSendPdu q false
+  c.upd fun s => { s with inflight := if q.con && s.proto ≠ .tls then s.inflight ++ [q] else s.inflight }
+
+/-- coap_session_connected: the flush of the delay queue, in order -/
 def flushLoop : Nat → Ctx → Ctx
   | 0, c => c
   | fuel + 1, c =>
@@ -294,13 +315,8 @@ def flushLoop : Nat → Ctx → Ctx
     | q :: rest =>
       if c.s.state ≠ .established then c else
       if q.con && c.s.proto ≠ .tls && c.s.conActive ≥ NSTART then c else
-      let c := if q.con && c.s.proto ≠ .tls then c.upd fun s => { s with conActive := s.conActive + 1 } else c
-      let c := c.upd fun s => { s with delayq := rest }
-      let c := c.sessionSendPdu q false
-      let w := c.ret
-      -- coap_wait_ack for a Confirmable (always succeeds), the node is deleted otherwise
-      let c := if q.con && c.s.proto ≠ .tls then c.upd fun s => { s with inflight := s.inflight ++ [q] } else c
-      if w < 0 then c else flushLoop fuel c
+      let c := c.flushOne q rest
+      if c.ret < 0 then c else flushLoop fuel c
 
 def sessionConnected (c : Ctx) : Ctx :=
   let c := c.upd fun s => { s with state := .established }
@@ -332,24 +348,26 @@ def appSend (con : Bool) (code mid : Nat) (tok : String) (c : Ctx) : Ctx :=
 
 /-! ## receiving -/
 
-def removeInflight (mid : Nat) (c : Ctx) : Option QMsg × Ctx :=
+def setFound (q : Option QMsg) (c : Ctx) : Ctx := { c with found := q }
+def setFlag (f : Bool) (c : Ctx) : Ctx := { c with flag := f }
+
+/-- coap_remove_from_queue for this session -/
+def removeInflight (mid : Nat) (c : Ctx) : Ctx :=
   match c.s.inflight.find? (·.mid = mid) with
-  | some q => (some q, c.upd fun s => { s with inflight := s.inflight.filter (·.sn ≠ q.sn) })
-  | none => (none, c)
+  | some q => (c.upd fun s => { s with inflight := s.inflight.filter (·.sn ≠ q.sn) }).setFound (some q)
+  | none => c.setFound none
 
 /-- handle_response (ACK / NON responses; a CON response is outside the modelled subset) -/
 def handleResponse (v : View) (c : Ctx) : Ctx :=
-  let c :=
+  -- coap_cancel_all_messages for anything but an ACK: same token, no NACK
+  let c := c.upd fun s =>
     if v.kind ≠ 2 then
-      -- coap_cancel_all_messages: same token, no NACK
-      let n := (c.s.inflight.filter fun q => q.tok = v.tok ∧ q.con).length
-      c.upd fun s => { s with inflight := s.inflight.filter (fun q => q.tok ≠ v.tok), conActive := s.conActive - n }
-    else c
+      { s with inflight := s.inflight.filter (fun q => q.tok ≠ v.tok),
+               conActive := s.conActive - (s.inflight.filter fun q => q.tok = v.tok ∧ q.con).length }
+    else s
   if v.kind = 0 then c.emit (.unmodelled "con-response")
   else if v.kind = 2 && c.s.lastAckMid = some v.mid then c
-  else
-    let c := if v.kind = 2 then c.upd fun s => { s with lastAckMid := some v.mid } else c
-    c.emit (.rsp v.tok v.code)
+  else (c.upd fun s => if v.kind = 2 then { s with lastAckMid := some v.mid } else s).emit (.rsp v.tok v.code)
 
 /-- handle_request for the harness' resource: the handler answers 2.05, piggy-backed for CON -/
 def handleRequest (v : View) (c : Ctx) : Ctx :=
@@ -357,36 +375,36 @@ def handleRequest (v : View) (c : Ctx) : Ctx :=
   let m : QMsg := { sn := c.s.next, con := false, code := 69, mid := v.mid, tok := v.tok }
   (c.upd fun s => { s with next := s.next + 1 }).sendInternal m (v.kind = 0)
 
+/-- `con_active--` followed by the flush of the delay queue if the session is established: after an ACK, a RST, a
+give-up (coap_dispatch, coap_retransmit) -/
+def ackFlush (c : Ctx) : Ctx :=
+  if c.s.conActive > 0 then
+    let c := c.upd fun s => { s with conActive := s.conActive - 1 }
+    if c.s.state = .established then c.sessionConnected else c
+  else c
+
 /-- coap_handle_dgram -> coap_dispatch -/
 def dispatch (v : View) (c : Ctx) : Ctx :=
   if v.kind = 2 then
-    let (sent, c) := c.removeInflight v.mid
-    let c :=
-      if sent.isSome && c.s.conActive > 0 then
-        let c := c.upd fun s => { s with conActive := s.conActive - 1 }
-        if c.s.state = .established then c.sessionConnected else c
-      else c
+    let c := c.removeInflight v.mid
+    let c := if c.found.isSome then c.ackFlush else c
     if v.code = 0 then c
     else if v.code < 32 then c
     else c.handleResponse v
   else if v.kind = 3 then
-    let c :=
-      if c.s.conActive > 0 then
-        let c := c.upd fun s => { s with conActive := s.conActive - 1 }
-        if c.s.state = .established then c.sessionConnected else c
-      else c
-    let (sent, c) := c.removeInflight v.mid
-    match sent with
+    let c := c.ackFlush
+    let c := c.removeInflight v.mid
+    match c.found with
     | some q => if q.con then c.emit (nackOf .rst q) else c
     | none => c.emit (.nack .rst none none)
   else
-    let (_, c) := if v.kind = 1 then c.removeInflight v.mid else (none, c)
+    let c := if v.kind = 1 then c.removeInflight v.mid else c
     if v.code = 0 then c.emit (.unmodelled "empty")
     else if v.code < 32 then c.handleRequest v
     else if v.code ≥ 64 then c.handleResponse v
     else c.emit (.unmodelled "code")
 
-/-- tail of coap_dtls_send / coap_dtls_receive: act on session->dtls_event -/
+/-- tail of coap_dtls_receive: act on session->dtls_event -/
 def receiveTail (c : Ctx) : Ctx :=
   match c.s.dtlsEvent with
   | some e =>
@@ -394,35 +412,39 @@ def receiveTail (c : Ctx) : Ctx :=
     if e = .error || e = .closed then c.disconnected .tls else c
   | none => c
 
+/-- do_gnutls_handshake, and coap_session_connected if it reported success -/
+def hsThenConnect (c : Ctx) : Ctx :=
+  let c := c.doHandshake
+  if c.ret = 1 then c.sessionConnected.setFlag true else c.setFlag false
+
+/-- coap_dtls_receive, `established` branch -/
+def recvEst (c : Ctx) : Ctx :=
+  let c := if c.s.state = .handshake then (c.emit (.ev .connected)).sessionConnected else c
+  let c := c.popRec
+  match c.recR with
+  | .data v => c.dispatch v            -- returns directly
+  | .junk => c
+  | .zero => (c.upd fun s => { s with dtlsEvent := some .closed }).receiveTail
+  | .fatalrx => (c.upd fun s => { s with sentAlert := true, dtlsEvent := some .closed }).receiveTail
+  | .warn => (c.upd fun s => { s with dtlsEvent := some .error }).receiveTail
+  | .err => c.receiveTail
+
+/-- coap_dtls_receive, handshake branch.  "Do the handshake again in case of internal timeout" happens only if GnuTLS
+left the datagram unread, which is the oracle's state — visible here as a second handshake answer inside the event -/
+def recvHs (c : Ctx) : Ctx :=
+  let c := c.hsThenConnect
+  let c :=
+    if c.flag then c
+    else
+      match c.orc with
+      | .hs _ :: _ => if !c.s.sentAlert then c.hsThenConnect else c
+      | _ => c
+  c.receiveTail
+
 /-- coap_dtls_receive -/
 def dtlsReceive (c : Ctx) : Ctx :=
   let c := c.upd fun s => { s with dtlsEvent := none }
-  if c.s.est then
-    let c :=
-      if c.s.state = .handshake then (c.emit (.ev .connected)).sessionConnected else c
-    let (r, c) := c.popRec
-    match r with
-    | .data v => c.dispatch v            -- returns directly
-    | .junk => c
-    | .zero => (c.upd fun s => { s with dtlsEvent := some .closed }).receiveTail
-    | .fatalrx => (c.upd fun s => { s with sentAlert := true, dtlsEvent := some .closed }).receiveTail
-    | .warn => (c.upd fun s => { s with dtlsEvent := some .error }).receiveTail
-    | .err => c.receiveTail
-  else
-    let c := c.doHandshake
-    let c :=
-      if c.ret = 1 then c.sessionConnected
-      else
-        -- "do the handshake again in case of internal timeout": only if GnuTLS left the datagram unread, which is
-        -- the oracle's state — visible here as a second handshake answer inside the same event
-        match c.orc with
-        | .hs _ :: _ =>
-          if !c.s.sentAlert then
-            let c := c.doHandshake
-            if c.ret = 1 then c.sessionConnected else c
-          else c
-        | _ => c
-    c.receiveTail
+  if c.s.est then c.recvEst else c.recvHs
 
 /-- coap_dtls_handle_timeout (called by the I/O loop for a DTLS session in HANDSHAKE state that has a TLS object) -/
 def tlsTimeout (c : Ctx) : Ctx :=
@@ -445,11 +467,7 @@ def retransmit (mid : Nat) (c : Ctx) : Ctx :=
                                        conActive := s.conActive - 1 }
       c.sendPdu q' false true
     else
-      let c :=
-        if c.s.conActive > 0 then
-          let c := c.upd fun s => { s with conActive := s.conActive - 1 }
-          if c.s.state = .established then c.sessionConnected else c
-        else c
+      let c := c.ackFlush
       let c := if q.con then c.emit (nackOf .retries q) else c
       c.upd fun s => { s with inflight := s.inflight.filter (·.sn ≠ q.sn) }
 
@@ -457,9 +475,9 @@ def retransmit (mid : Nat) (c : Ctx) : Ctx :=
 def dtlsEstablishClient (c : Ctx) : Ctx :=
   let c := c.upd fun s => { s with state := .handshake }
   -- coap_dtls_new_client_session
-  let (ok, c) := c.popEnv
+  let c := c.popEnv
   let c :=
-    if ok then
+    if c.flag then
       let c := c.doHandshake
       if c.ret = -1 then c.freeEnv true else c.upd fun s => { s with tls := true }
     else c
@@ -469,12 +487,12 @@ def dtlsEstablishClient (c : Ctx) : Ctx :=
 def dtlsHello (c : Ctx) : Ctx :=
   let c :=
     if !c.s.tls then
-      let (ok, c) := c.popEnv
-      if ok then c.upd fun s => { s with tls := true } else c
+      let c := c.popEnv
+      if c.flag then c.upd fun s => { s with tls := true } else c
     else c
   if !c.s.tls then c.setRet (-1) else
-  let (ok, c) := c.popCk
-  if !ok then (c.emit .cookie).setRet 0 else
+  let c := c.popCk
+  if !c.flag then (c.emit .cookie).setRet 0 else
   let c := c.doHandshake
   if c.ret < 0 then ((c.freeEnv false).upd fun s => { s with tls := false }).setRet (-1) else c.setRet 1
 
@@ -553,6 +571,14 @@ def newClient (orc : List Orc) : Sess × List Out :=
 def prefilterCreates : DgKind → Bool
   | .hello => true
   | _ => false
+
+/-- the same pre-filter on the bytes of the datagram (DTLS record header: content type at 0, handshake type at 13);
+the connection-id branch finds no session because GnuTLS sessions never carry a client CID -/
+def classify (b : List Nat) : DgKind :=
+  if b.length < 14 then .short
+  else if (b.getD 0 0) / 16 % 4 = 3 ∨ b.getD 0 0 = 25 then .cid
+  else if b.getD 0 0 ≠ 22 ∨ b.getD 13 0 ≠ 1 then .other
+  else .hello
 
 /-- coap_read_endpoint for a datagram from a peer WITHOUT a session -/
 def endpointRxUnknownCtx (orc : List Orc) : Ctx :=
